@@ -102,7 +102,7 @@ def model_expected(mods):
 
 
 def compare(ctx, mods, n, text):
-    errs = wf.self_contained(n)
+    errs = wf.self_contained(n, strict_refsets=True)
     if errs:
         return "reader-output-ill-formed:%s" % errs[0][0], errs[0][1]
     got = from_netlist(n, ctx)
@@ -148,7 +148,7 @@ def reduced_bundled(ctx, f):
     n = sdn.parse(f)
     ctx.count("texts_parsed")
     ctx.count("bundled_files")
-    errs = wf.self_contained(n)
+    errs = wf.self_contained(n, strict_refsets=True)
     if errs:
         return "bundled:reader-output-ill-formed:%s" % errs[0][0], "%s: %s" % (os.path.basename(f), errs[0][1])
     text_nc = re.sub(r"/\*.*?\*/", " ", re.sub(r"//[^\n]*", " ", text), flags=re.S)
@@ -172,6 +172,44 @@ def reduced_bundled(ctx, f):
     return None
 
 
+def chain_orders_case(ctx, i, rng, d):
+    """Finite enumeration: EVERY declaration order of a 4- or 5-level module chain (plus a leaf) must elect the root."""
+    import itertools
+    depth = rng.choice([4, 4, 5])
+    names = ["lvl%d" % k for k in range(depth)]       # lvl0 is the root, lvl<depth-1> the leaf
+    body = {}
+    for k, nm in enumerate(names):
+        if k == depth - 1:
+            body[nm] = "module %s(a, y);\n  input a; output y;\n  PRIMX p(.i(a), .o(y));\nendmodule\n" % nm
+        else:
+            extra = "  %s second(.a(y), .y());\n" % names[k + 1] if rng.random() < 0.4 else ""
+            body[nm] = "module %s(a, y);\n  input a; output y;\n  %s inst(.a(a), .y(y));\n%sendmodule\n" % (nm, names[k + 1], extra)
+    orders = list(itertools.permutations(names))
+    if len(orders) > 24 and ctx.tier == "quick":
+        orders = rng.sample(orders, 40)
+    f = os.path.join(d, "chain.v")
+    for order in orders:
+        with open(f, "w") as fh:
+            fh.write("\n".join(body[nm] for nm in order))
+        ctx.count("chain_orders_parsed")
+        try:
+            n = sdn.parse(f)
+        except Exception as ex:  # noqa: BLE001
+            ctx.violation("reader-rejects-supported-text:%s:chain" % type(ex).__name__, "%r for module order %s" % (ex, order))
+            return
+        t = n.top_instance
+        if t is None or t.reference is None or t.reference.name != "lvl0":
+            ctx.violation("wrong-top", "module order %s: top is %s, the single root is lvl0" % (
+                list(order), t.reference.name if t is not None and t.reference is not None else None))
+            return
+        errs = wf.self_contained(n, strict_refsets=True)
+        if errs:
+            ctx.violation("reader-output-ill-formed:%s" % errs[0][0], "%s for module order %s" % (errs[0][1], order))
+            return
+    ctx.count("texts_parsed", len(orders))
+    ctx.fingerprint(("chain", depth, tuple(sorted(body.items()))), True)
+
+
 def run_case(ctx, i, rng):
     me = sys.modules[__name__]
     d = tempfile.mkdtemp(prefix="c06_")
@@ -185,6 +223,8 @@ def run_case(ctx, i, rng):
                 ctx.violation(r[0], r[1])
             ctx.fingerprint(("bundled", os.path.basename(f)), True)
             return
+        if i % 12 == 5:
+            return chain_orders_case(ctx, i, rng, d)
         feats = [x for x in ALL_FEATURES if rng.random() < 0.55]
         for key, feat in FENCE_FEATURES.items():
             if feat in feats and common.fenced(me, key):
